@@ -98,7 +98,7 @@ def rules(ctx, tier):
     # including a snapshot whose log has been pruned to nothing
     from . import c02
     from .base import share_rule
-    x = share_rule(ctx, tier, c02, "R7", "R7",
+    x = share_rule(ctx, tier, c02, "R7", "R8",
                    "after replay the next version is above the maximum of the snapshot version and every record seen "
                    "(shared with C02-R7)",
                    "the replayer forgets the snapshot's version when the log is empty: version 1 is handed out again, the "
@@ -170,7 +170,7 @@ def record_placement(ctx, r, walmgr):
                     hsh = a
                 elif "[u8]" in ts:
                     data = a
-            if ver is None or data is None or hsh is None:
+            if ver is None or data is None:
                 continue
             lv = sl.leaves_of_operand(ver)
             alloc = [l for l in lv if l[0] == "call"]
@@ -184,14 +184,32 @@ def record_placement(ctx, r, walmgr):
                     "the version written at %s is the one just allocated (%s)" % (site_where(w), ", ".join(fmt_leaf(l) for l in lv)),
                     "the version written at %s has origins %s (expected: the allocator's result)" % (
                         site_where(w), sorted(fmt_leaf(l) for l in lv)), site_where(w))
-            lh = sl.leaves_of_operand(hsh)
             ld = sl.leaves_of_operand(data)
-            hash_of = set()
-            for l in lh:
-                if l[0] == "call":
-                    t = b.blocks[l[2]]["term"]
-                    for a in t["args"]:
-                        hash_of |= sl.leaves_of_operand(a)
+            if hsh is not None:
+                lh = sl.leaves_of_operand(hsh)
+                hash_of = set()
+                for l in lh:
+                    if l[0] == "call":
+                        t = b.blocks[l[2]]["term"]
+                        for a in t["args"]:
+                            hash_of |= sl.leaves_of_operand(a)
+            else:
+                # the record writer computes the checksum itself: in its body, the hash-typed value comes from one call
+                # on the payload parameter
+                tv = ctx.flat(tgt)
+                tsl = Slicer(ctx.world, tv, follow_local=False)
+                dpar = [i for i in range(1, tv.argc + 1) if "[u8]" in prog.ty_str(tv.locals[i])]
+                hcalls = [s2 for s2 in tv.calls() if prog.ty_str(tv.locals[s2.term["dest"]["l"]]) == prog.ty_str(
+                    ctx.anchors.get("HASH_TY")) and not s2.term["dest"]["p"]]
+                lh = set(("call", s2.path, s2.bb, ()) for s2 in hcalls)
+                hash_of = set()
+                good = len(dpar) == 1 and len(hcalls) == 1
+                if good:
+                    inner = set()
+                    for a in hcalls[0].term["args"]:
+                        inner |= tsl.leaves_of_operand(a)
+                    good = bool(inner) and all(x[0] == "param" and x[1] == dpar[0] and not x[2] for x in inner)
+                hash_of = set(ld) if good else set()
             r.check(bool(hash_of) and hash_of == ld and len(lh) == 1, "record-checksum", b,
                     "the checksum written at %s is the hash of the payload written (%s)" % (
                         site_where(w), ", ".join(fmt_leaf(l) for l in ld)),
@@ -381,44 +399,53 @@ def sentinel(ctx, r, must):
                 "the end marker written at %s is flushed and synced before %s returns Ok" % (site_where(e.site), b.path),
                 "the end marker written at %s is not flushed+synced before %s returns Ok" % (site_where(e.site), b.path),
                 site_where(e.site))
-        callers = prog.callers_index().get(b.path, [])
-        r.check(len(callers) == 1, "marker-single-caller", b, "%s has a single caller" % b.path,
-                "%s is called from %d places" % (b.path, len(callers)))
+        # every occurrence of the marker write in the WAL manager's methods (the writer's own helpers inlined, a helper's
+        # `match` on a literal argument decided) lies on the roll-over branch and acts on the writer taken out of the manager
         walmgr = ctx.anchors.get("WALMGR")
-        mviews, minl = manager_views(ctx, walmgr)
-        for (cs, how) in callers:
-            # judged in the manager method that (through its private helpers) makes the call
-            cands = [(b0, V) for (b0, V) in mviews if b0.path not in minl and ctx.flat_sites_of(V, cs)]
-            if not cands:
-                cands = [(cs.body, cs.body)]
-            dom = True
-            for (b0, cb) in cands:
-                for fcs in (ctx.flat_sites_of(cb, cs) if getattr(cb, "is_flat", False) else [cs]):
-                    d1 = False
-                    # dominated by the roll-over decision (a switch on a comparison of the writer's segment with the
-                    # target, or on a bool computed from it)
-                    for sw in cb.normal_blocks():
-                        c = cfgutil.switch_condition(cb, sw)
-                        if not c or c[0] not in ("call", "bool", "cmp"):
-                            continue
-                        tt, ff = cfgutil.true_false_edges(cb, sw)
-                        nm = c[1] if c[0] in ("call", "cmp") else ""
-                        if c[0] == "cmp" and nm not in ("Ne", "Eq"):
-                            continue
-                        for edge_t in ((tt, ff) if c[0] == "cmp" else (tt,)):
-                            if edge_t is not None and cfgutil.edge_dominates(cb, (sw, edge_t), fcs.bb):
-                                if c[0] == "cmp" or "is_none_or" in nm or "ne" in nm or c[0] == "bool":
-                                    d1 = True
-                    dom = dom and d1
-            cb = cs.body
-            r.check(dom, "marker-only-at-rollover", cb,
-                    "the seal at %s happens only on the roll-over branch" % site_where(cs),
-                    "the seal at %s is not confined to the roll-over branch" % site_where(cs), site_where(cs))
-            # the sealed writer is the one taken out of the manager (it is never written again)
-            csl = Slicer(ctx.world, cb)
-            la = csl.leaves_of_operand(cs.term["args"][0])
-            r.check(any(l[0] == "call" and l[1].endswith("Option::take") for l in la) or
-                    any(l[0] == "param" and l[2] for l in la), "sealed-writer-detached", cb,
-                    "the sealed writer was taken out of the manager", "the sealed writer stays installed in the manager")
+        mgr = [b0 for b0 in prog.bodies.values() if not b0.is_closure and b0.argc >= 1 and
+               prog.adt_of(b0.locals[1])[0] == walmgr]
+        fviews = [(b0, ctx.flat(b0)) for b0 in mgr]
+        inl = set()
+        for (_b0, V) in fviews:
+            inl |= set(V.inlined)
+        n_occ = 0
+        for (b0, V) in fviews:
+            if b0.path in inl:
+                continue
+            occ = [fs for fs in ctx.flat_sites_of(V, e.site) if not V.blocks[fs.bb].get("cleanup")]
+            if not occ:
+                continue
+            is_drop = b0.raw.get("impl_trait") == "std::ops::Drop"
+            from ..prov import TRANSPARENT
+            vsl = Slicer(ctx.world, V, transparent=set(x for x in TRANSPARENT if not x.endswith("::take")))
+            for fcs in occ:
+                if fcs.kind != "call":
+                    continue
+                n_occ += 1
+                d1 = False
+                # dominated by the roll-over decision (a switch on a comparison of the writer's segment with the
+                # target, or on a bool computed from it)
+                for sw in V.normal_blocks():
+                    c = cfgutil.switch_condition(V, sw)
+                    if not c or c[0] not in ("call", "bool", "cmp"):
+                        continue
+                    tt, ff = cfgutil.true_false_edges(V, sw)
+                    nm = c[1] if c[0] in ("call", "cmp") else ""
+                    if c[0] == "cmp" and nm not in ("Ne", "Eq"):
+                        continue
+                    for edge_t in ((tt, ff) if c[0] == "cmp" else (tt,)):
+                        if edge_t is not None and cfgutil.edge_dominates(V, (sw, edge_t), fcs.bb):
+                            if c[0] == "cmp" or "is_none_or" in nm or "ne" in nm or c[0] == "bool":
+                                d1 = True
+                where = site_where(fcs)
+                r.check(d1 and not is_drop, "marker-only-at-rollover", b0,
+                        "in %s the end marker (%s) is written only on the roll-over branch" % (b0.path, where),
+                        "in %s the end marker can be written at %s outside the roll-over branch" % (b0.path, where), where)
+                # the sealed writer is the one taken out of the manager (it is never written again)
+                la = vsl.leaves_of_operand(fcs.term["args"][0])
+                r.check(any(l[0] == "call" and l[1].endswith("Option::take") for l in la), "sealed-writer-detached", b0,
+                        "the sealed writer was taken out of the manager", "the sealed writer stays installed in the manager")
+        r.check(n_occ >= 1, "marker-reached", b, "the marker write is reached from %d place(s) in the WAL manager" % n_occ,
+                "the end-marker write at %s is not reached from the WAL manager (nothing seals a segment)" % site_where(e.site))
     r.check(found == 1, "marker-sites", None, "%d site(s) write an all-zero header" % found,
             "expected exactly one site writing the end marker, found %d" % found)
